@@ -61,6 +61,18 @@ pub fn chain(depth: usize, fanin: usize, form0: usize, void_every: usize) -> Cas
     Case { family: format!("chain(depth={depth},fanin={fanin},form={form0},void_every={void_every})"), items: depth + 1, depth, wgsl: s }
 }
 
+/// the same helper graph shared by entry points of all three stages (and two of one stage)
+pub fn shared(base: Case, top_call: &str) -> Case {
+    // strip the single entry point of `base` and add four
+    let cut = base.wgsl.rfind("@compute").or(base.wgsl.rfind("@fragment")).or(base.wgsl.rfind("@vertex")).unwrap_or(base.wgsl.len());
+    let mut s = base.wgsl[..cut].to_string();
+    writeln!(s, "@vertex\nfn vs_a() -> @builtin(position) vec4<f32> {{\n    var acc: f32 = 1.0;\n    {top_call}\n    return vec4<f32>(acc);\n}}").unwrap();
+    writeln!(s, "@fragment\nfn fs_a() -> @location(0) vec4<f32> {{\n    var acc: f32 = 1.0;\n    {top_call}\n    return vec4<f32>(acc);\n}}").unwrap();
+    writeln!(s, "@vertex\nfn vs_b() -> @builtin(position) vec4<f32> {{\n    var acc: f32 = 2.0;\n    {top_call}\n    return vec4<f32>(acc);\n}}").unwrap();
+    writeln!(s, "@compute @workgroup_size(1)\nfn cs_a() {{\n    var acc: f32 = 1.0;\n    {top_call}\n}}").unwrap();
+    Case { family: format!("shared_by_4_entries[{}]", base.family), wgsl: s, ..base }
+}
+
 /// helpers without a return value only: v_i calls v_{i-1} `fanin` times as call statements
 pub fn void_chain(depth: usize, fanin: usize) -> Case {
     let mut s = header();
@@ -220,6 +232,14 @@ pub fn family_members(tier: Tier) -> Vec<Case> {
         v.push(chain(d, 2, 1, 0));
         v.push(chain(d, 2, 6, 4));
     }
+    for d in [8usize, 16, 32, 64] {
+        v.push(shared(chain(d, 1, 0, 0), &format!("acc = acc + f_{d}(acc);")));
+        v.push(shared(chain(d, 2, 1, 0), &format!("acc = acc + f_{d}(acc);")));
+        v.push(shared(void_chain(d, 2), &format!("v_{d}(acc);")));
+    }
+    for l in [8usize, 16, 32, 48] {
+        v.push(shared(diamond(l, 2, 0), &format!("acc = d_{l}_0(acc);")));
+    }
     for d in [8usize, 16, 24, 32, 48, 64] {
         v.push(void_chain(d, 1));
         v.push(void_chain(d, 2));
@@ -328,7 +348,7 @@ pub fn eval_replay(_sut: &dyn Sut, v: &serde_json::Value) -> Result<(), String> 
 pub fn run(_sut: &dyn Sut, tier: Tier) -> ! {
     crate::preflight::quiet_panics();
     let mut run = Run::new("C20", tier);
-    run.rule = format!("deterministic family members (call chains with 1-3 call sites per level and mixed value/void calls up to depth 64, chains of helpers without return value with 1-3 call statements per level up to depth 64, diamonds up to 40 layers, fan-out to a shared chain, nested struct types up to depth 29 directly and through arrays, wide flat shaders with hundreds of bindings/members/constants) plus random helper DAGs of 4..300 functions drawn by proptest; each is generated in a worker child whose own CPU time (getrusage) is compared with {CPU_THRESHOLD_S}s; children are killed at {CPU_KILL_S}s CPU by RLIMIT_CPU. Non-trivial = call/type depth >= 16 or >= 100 functions/bindings/members; distinct by source text.");
+    run.rule = format!("deterministic family members (call chains with 1-3 call sites per level and mixed value/void calls up to depth 64, chains of helpers without return value with 1-3 call statements per level up to depth 64, the same chains and diamonds shared by four entry points of three stages, diamonds up to 40 layers, fan-out to a shared chain, nested struct types up to depth 29 directly and through arrays, wide flat shaders with hundreds of bindings/members/constants) plus random helper DAGs of 4..300 functions drawn by proptest; each is generated in a worker child whose own CPU time (getrusage) is compared with {CPU_THRESHOLD_S}s; children are killed at {CPU_KILL_S}s CPU by RLIMIT_CPU. Non-trivial = call/type depth >= 16 or >= 100 functions/bindings/members; distinct by source text.");
     run.assumptions = vec![
         "cost is CPU seconds of the child (user+sys), never wall clock; the harness build has debug assertions on, which costs < 2x".into(),
         "shallow shaders of this size cost 1-30 ms (measured, reported as max_cpu_s), so the threshold has > 50x slack".into(),
